@@ -337,12 +337,22 @@ class TransformedPrior(Prior):
         msg = "Cannot calculate probability. Use base priors."
         raise NotImplementedError(msg)
 
-    def sample(self, size=None):
+    def sample(self, size=None, _drawn=None):
         if size is None:
             repeat = lambda x: x
         else:
             repeat = lambda x: np.repeat(x, size)
-        raw_samples = [bp.sample(size) if isinstance(bp, Prior) else repeat(bp)
+        # a prior that occurs more than once in an expression is one
+        # parameter (as for guess and the model's maps): draw it once
+        drawn = {} if _drawn is None else _drawn
+
+        def draw(bp):
+            if isinstance(bp, TransformedPrior):
+                return bp.sample(size, drawn)
+            if id(bp) not in drawn:
+                drawn[id(bp)] = bp.sample(size)
+            return drawn[id(bp)]
+        raw_samples = [draw(bp) if isinstance(bp, Prior) else repeat(bp)
                        for bp in self.base_prior]
         if size is None:
             return self.transformation(*raw_samples)
